@@ -8,6 +8,9 @@
 (*   "cb21"  : histories Build21 ; {Export21, Parse21, SetUserData, SetConstraints}*                  *)
 (*   "cb1"   : histories Build1  ; {Export1, Parse1, SetImageLength}*                                 *)
 (*   "files" : key files are written, read by path, REWRITTEN, read by path again (one process)       *)
+(*   "dev"   : the device sweep - EVERY (family, revision) of the device table, the name "latest"      *)
+(*             included, through every entry point that is given a device (ComputeFor); the RoT type  *)
+(*             of the case is the one the table gives for that revision                               *)
 EXTENDS Rot, Json, IOUtils
 VARIABLES mode, scen, hist, done
 gvars == <<mode, scen, hist, done>>
@@ -15,6 +18,7 @@ Depth == atoi(IOEnv.GEN_DEPTH)
 Full  == IOEnv.MENU = "full"
 Want(m) == IOEnv.GEN_MODE = "all" \/ IOEnv.GEN_MODE = m
 Extra == IF IOEnv.EXTRA_CASES = "none" THEN <<>> ELSE ndJsonDeserialize(IOEnv.EXTRA_CASES)
+FileDevices == ndJsonDeserialize(IOEnv.C03_DEVICES)          \* Devices <- FileDevices (RotGen.cfg)
 
 \* ---------------------------------------------------------------- menus
 ClsOf(rot) == CASE rot = "cert_block_1" -> RsaClasses [] rot = "cert_block_21" -> {"p256", "p384"}
@@ -62,6 +66,24 @@ SweepB == UNION {UNION {UNION {UNION {{Case(rot, FirstKeys(c, n), v, path, IF Us
 Cheap(c) == Full \/ c.path \notin {"dc", "dc_parse", "certblock_cfg"} \/ \A i \in 1..Len(c.keys) : c.keys[i].cls \notin {"rsa3072", "rsa4096"}
 Cases == {c \in SweepA \cup SweepB : Legal(c) /\ Cheap(c)}
 
+\* (C) device sweep: device i of the table, revision name number j of it (0 = "latest"), every device entry point.  The key class, the
+\* number of keys and their order vary with (i, j) so that neighbouring revisions do not get the same list; thorough: every class
+DevCls(rot, i) == IF Full THEN ClsOf(rot)
+                  ELSE CASE rot = "cert_block_1" -> {"rsa2048"} [] rot = "cert_block_21" -> {<<"p256", "p384">>[(i % 2) + 1]}
+                         [] OTHER -> {<<"p256", "p384", "p521">>[(i % 3) + 1]}
+DevKeys(rot, cls, i, j) == LET n == IF rot \in {"srk_table_ahab", "srk_table_ahab_v2"} THEN 4 ELSE 1 + ((i + j) % 4) IN
+                           [m \in 1..n |-> Key(cls, 1 + ((i + j + m) % 4))]
+DevRevName(d, j) == IF j = 0 THEN "latest" ELSE d.revs[j]
+DevCases == UNION {UNION {UNION {
+               {[fam |-> Devices[i].fam, rev |-> DevRevName(Devices[i], j),
+                 c |-> LET rot == RotOfDev(Devices[i], DevRevName(Devices[i], j))  ks == DevKeys(rot, cls, i, j) IN
+                       Case(rot, ks, [m \in 1..Len(ks) |-> DefaultEnc(rot, path)], path, IF UsesUsed(path) THEN 1 + (i % Len(ks)) ELSE 0)]
+                : cls \in (IF RotOfDev(Devices[i], DevRevName(Devices[i], j)) \in RotTypes THEN DevCls(RotOfDev(Devices[i], DevRevName(Devices[i], j)), i) ELSE {})}
+               : path \in DevPaths(Devices[i])} : j \in 0..Len(Devices[i].revs)} : i \in 1..Len(Devices)}
+DevInit == /\ mode = "dev" /\ Want("dev") /\ scen = 0 /\ done = FALSE /\ Init
+           /\ \E x \in DevCases : /\ Legal(x.c)                                     \* cert_block_x, v2 + debug credential ...: not asserted
+                                   /\ Assert(LegalFor(x.fam, x.rev, x.c), <<"device case outside the domain", x.fam, x.rev>>)
+                                   /\ hist = <<[a |-> "ComputeFor", fam |-> x.fam, rev |-> x.rev, c |-> x.c, term |-> DocCase(x.c)]>>
 \* ---------------------------------------------------------------- initial states
 CaseInit == /\ mode = "case" /\ scen = 0 /\ done = FALSE /\ Init
             /\ \/ Want("case") /\ \E c \in Cases : hist = <<[a |-> "Compute", c |-> c, term |-> DocCase(c)]>>
@@ -86,7 +108,7 @@ FilesInit == /\ Want("files") /\ mode = "files" /\ done = FALSE /\ obj = NoObj /
                   /\ fs = [f \in Files |-> IF f <= s.n THEN [has |-> TRUE, k |-> Key(s.cls, f), enc |-> FileEnc(s.rot, s.path, FALSE)] ELSE NoFile]
                   /\ hist = [f \in 1..s.n |-> [a |-> "WriteFile", f |-> f, k |-> Key(s.cls, f), enc |-> FileEnc(s.rot, s.path, FALSE)]]
                   /\ act = [a |-> "WriteFile"]
-GInit == CaseInit \/ HistInit \/ FilesInit
+GInit == CaseInit \/ HistInit \/ FilesInit \/ DevInit
 
 \* ---------------------------------------------------------------- histories
 NU == IF Full THEN {<<1, 1>>, <<2, 1>>, <<2, 2>>, <<3, 1>>, <<3, 2>>, <<3, 3>>, <<4, 1>>, <<4, 2>>, <<4, 3>>, <<4, 4>>}
@@ -115,7 +137,7 @@ DoRewrite == /\ LastA = "ReadByPath"
                    WriteFile(f, Key(scen.cls, IF IsRsa(scen.cls) THEN id - 2 ELSE id), FileEnc(scen.rot, scen.path, alt))
 FilesNext == mode = "files" /\ (DoRead \/ DoRewrite)
 Steps == IF mode = "files" THEN Len(hist) - scen.n ELSE Len(hist)
-Limit == IF mode = "case" THEN 1 ELSE IF mode = "cb21" /\ Len(hist) > 0 /\ hist[1].cons = 1 /\ hist[1].isk THEN 3 ELSE Depth + (IF mode = "files" THEN 0 ELSE 1)
+Limit == IF mode \in {"case", "dev"} THEN 1 ELSE IF mode = "cb21" /\ Len(hist) > 0 /\ hist[1].cons = 1 /\ hist[1].isk THEN 3 ELSE Depth + (IF mode = "files" THEN 0 ELSE 1)
 GNext == \/ /\ Steps < Limit /\ (Cb21Next \/ Cb1Next \/ FilesNext)
             /\ hist' = Append(hist, act') /\ UNCHANGED <<mode, scen, done>>
          \/ /\ Steps = Limit /\ ~done /\ done' = TRUE
@@ -125,7 +147,7 @@ GNext == \/ /\ Steps < Limit /\ (Cb21Next \/ Cb1Next \/ FilesNext)
 \* ---------------------------------------------------------------- lemmas over the case space (term algebra)
 C0 == hist[1].c
 T0 == hist[1].term
-IsCase == mode = "case"
+IsCase == mode \in {"case", "dev"}
 IsValue == IsCase /\ C0.path \in ValuePaths(C0.rot)
 \* the length of the value is that of the documented hash
 TermLen == IsValue => T0.len = (CASE C0.rot = "srk_table_ahab_v2" -> 64 [] C0.rot = "cert_block_21" -> HashLen(HashOf(C0.keys[1].cls)) [] OTHER -> 32)
@@ -154,6 +176,14 @@ TableLen == IsCase => DocTable(C0.rot, C0.keys, Cas(C0)).len =
       [] C0.rot = "srk_table_ahab" -> 4 + 4 * (12 + ALen(c) + AhabBLen(c))
       [] C0.rot = "srk_table_ahab_v2" -> 4 + 4 * 76
       [] C0.rot = "srk_table_hab" -> 4 + n * (12 + ALen(c) + BLen(c)))
+\* the device sweep: the case carries the RoT type of the REQUESTED revision; a revision of the same family that has ANOTHER type would
+\* give another value for the same keys (so an entry point that looks at the wrong revision cannot pass), one with the same type the same
+IsDev == mode = "dev"
+RevisionDecidesGen == IsDev => LET e == hist[1] IN
+   /\ e.c.rot = RotOf(e.fam, e.rev) /\ e.term = DocCase(e.c)
+   /\ \A r2 \in RevNames(Dev(e.fam)) :
+         LET c2 == [e.c EXCEPT !.rot = RotOf(e.fam, r2)] IN
+         Legal(c2) => ((DocCase(c2) = e.term) <=> (RotOf(e.fam, r2) = e.c.rot))
 \* ---------------------------------------------------------------- invariants of the histories
 BlockLen == mode = "cb21" /\ act.a = "Export21" =>
    act.term.len = (LET o == out  c == o.keys[1].cls  n == Len(o.keys) IN
